@@ -112,4 +112,15 @@ Wild(f, style, reg, kind, out) ==
 
 (* the load bias that matters: an absolute symbol reached pc-relatively in a PIE moves with the image *)
 BiasFor(kind, out, bias) == IF kind \in {"abs", "weak0"} /\ out = "pie" THEN bias ELSE NoBias
+
+(* ---- TLS: general-dynamic / local-dynamic / initial-exec / descriptor -> local-exec ---------- *)
+(* tp: the thread pointer; off: the variable's offset from it (negative on x86-64, a 64-bit word).
+   Every original sequence delivers tp + off: GD/LD through __tls_get_addr, IE through the GOT slot
+   holding off (R_X86_64_TPOFF64), TLSDESC through the descriptor's resolver.  The local-exec rewrites
+   are `mov %fs:0,%rax; lea off32(%rax),%rax`, `mov $off32,%reg` and `add $off32,%reg` - all with a
+   SIGN-extended 32-bit field (R_X86_64_TPOFF32, checked signed). *)
+TlsForms == {"gd", "ld", "ie-mov", "ie-add", "desc"}
+TlsEffect(form, tp, off) == WAdd(tp, off)
+TlsAfter(form, tp, off) == WAdd(tp, WSext32(off))
+TlsSafe(form, tp, off) == WFitsS32(off) => TlsAfter(form, tp, off) = TlsEffect(form, tp, off)
 =============================================================================
